@@ -214,16 +214,22 @@ fn run(ctx: &Ctx, rep: &Report) {
     // (siblings, parent/child directories, a file where another destination needs a directory, both
     // spellings): with_file x n + build must return, never panic
     {
-        let fam = ["/a", "/a/b", "/a/b/c", "/a/d", "/a/b/d", "/b", "/a/b/c/e", "./a/f", "/a.d/x", "/a/b.c", "./b/x", "/a//g", "/c/", "/zz/y/x/w"];
+        // the last five name directories of the first ones under another spelling ('.' components,
+        // doubled separators, a '..' that comes back): two files of one directory given in a row under
+        // two spellings (seeded change C17-s)
+        let fam = ["/a", "/a/b", "/a/b/c", "/a/d", "/a/b/d", "/b", "/a/b/c/e", "./a/f", "/a.d/x", "/a/b.c", "./b/x", "/a//g", "/c/", "/zz/y/x/w", "/./a/y", "././a/z", "/a/./b/h", "//a/k", "/a/b/../b/m"];
         let n = fam.len();
+        let tri: Vec<usize> = (0..9).chain(14..n).collect();
         let mut sets: Vec<Vec<&str>> = Vec::new();
         for i in 0..n {
             for j in 0..n {
                 sets.push(vec![fam[i], fam[j]]);
-                if i < 9 && j < 9 {
-                    for k in 0..9 {
-                        sets.push(vec![fam[i], fam[j], fam[k]]);
-                    }
+            }
+        }
+        for &i in &tri {
+            for &j in &tri {
+                for &k in &tri {
+                    sets.push(vec![fam[i], fam[j], fam[k]]);
                 }
             }
         }
